@@ -63,7 +63,8 @@ def check_universe():
 
 def atom_lists(tier):
     if tier == 'quick':
-        return ms.CONN_ATOMS[:4], ms.OBJ_ATOMS[:10], ms.NAME_ATOMS[:8], ms.ARG_ATOMS[:12]
+        return ms.CONN_ATOMS[:4], ms.OBJ_ATOMS[:10] + ms.OBJ_ATOMS[18:], ms.NAME_ATOMS[:8] + ms.NAME_ATOMS[11:], \
+            ms.ARG_ATOMS[:12] + ms.ARG_ATOMS[26:29]
     return ms.CONN_ATOMS, ms.OBJ_ATOMS, ms.NAME_ATOMS, ms.ARG_ATOMS
 
 
@@ -116,14 +117,15 @@ def gen_cases(tier):
     # constants
     yield {'const': '*'}
     yield {'const': '!'}
-    for ci, c in enumerate(C):
-        for oi, o in enumerate(O):
-            for ni, n in enumerate(N):
-                for ai, a in enumerate(A):
+    for c in C:
+        for o in O:
+            for n in N:
+                for a in A:
                     if not valid_combo(c, o, n, a):
                         continue
+                    ix = [ms.CONN_ATOMS.index(c), ms.OBJ_ATOMS.index(o), ms.NAME_ATOMS.index(n), ms.ARG_ATOMS.index(a)]
                     for r in respells:
-                        yield {'pos': [[ci, oi, ni, ai]], 'respell': r}
+                        yield {'pos': [ix], 'respell': r}
     reps = REPRESENTATIVE[:14] if tier == 'quick' else REPRESENTATIVE
     reps = [list(x) for x in reps]
     for p in reps:
